@@ -24,7 +24,8 @@ EXPLANATION = (
     'own header; (R5) registry dispatch raises IORegistryError for unknown '
     'formats. Not decided: atomicity inside open/write/writeto, gzip and FITS '
     'identification (astropy), read-back equality.')
-EXPLANATION_ADDED = (" (R1 also) a no-clobber guard may live in a helper: the helper, partially evaluated with the caller's path and overwrite flag, must raise OSError exactly when os.path.lexists of the (same, equally expanded) path holds; (R4 also) the identifiers' extension behaviour is probed on constant file names, must cover the extensions documented in docs/region_io.rst, the content signature is read from the identifier's value, and an empty list must still be written with the signature (known finding for DS9); (R5b) format inference is asked with (path, class, method name) in the roles the identifier functions give their parameters and takes the format element of the registry key; (R6) identification keeps no state; (R7) the dispatch layer neither creates nor removes the destination.")
+EXPLANATION_ADDED = (" (R1 also) a no-clobber guard may live in a helper: the helper, partially evaluated with the caller's path and overwrite flag, must raise OSError exactly when os.path.lexists of the (same, equally expanded) path holds; (R4 also) the identifiers' extension behaviour is probed on constant file names, must cover the extensions documented in docs/region_io.rst, the content signature is read from the identifier's value, and an empty list must still be written with the signature (known finding for DS9); (R5b) format inference is asked with (path, class, method name) in the roles the identifier functions give their parameters and takes the format element of the registry key; (R6) identification keeps no state; (R7) the dispatch layer neither creates nor removes the destination."
+                     ' R1 also: every normal return of a writer has passed the destination-creating call (no early return that neither raises nor writes).')
 EXPLANATION += EXPLANATION_ADDED
 TRUSTED = ['open(name, "w") creates/truncates; HDU.writeto(name) creates the file',
            'os.path.lexists is true for files, symlinks and dangling symlinks',
